@@ -5,7 +5,8 @@ from ..scn import Pat, seg, term, stub, tup, Rng
 class Check(ParCheck):
     prop = 'C12'
     theorems = ['slotTaken_applyAction', 'C12_single_use_linear', 'C12_at_most_one_delivery', 'C12_multi_use_intact',
-                'C12_typestate_value_level', 'C12_composite_single_use', 'C12_nonclone_quantified_once_only', 'run_nonclone']
+                'C12_typestate_value_level', 'C12_composite_single_use', 'C12_nonclone_quantified_once_only', 'run_nonclone',
+                'C12_composite_race_at_most_one', 'C12_composite_race_no_loss']
 
     def rule(self):
         return ("scenarios: a single-use response (some_call/next_call .returns(v) unquantified or .once(), also as the first "
@@ -44,9 +45,79 @@ class Check(ParCheck):
         # single-use and repeatable paths, compared with the Output model (theorem C17_once, imported by Props/C12)
         from .c17 import Check as C17
         C17().explore(rep, only_paths=None, merge=True, prop=self.prop)
+        self.leaf_race(rep, tier)
         # compile-time half: the builder refuses to quantify a non-Clone value for more than one use
         from .. import tscheck
         tscheck.report(self, rep, tier, 'C12')
+
+    def leaf_race(self, rep, tier):
+        """threads racing for ONE composite single-use value (owned leaves in separate locked slots): all schedules,
+        judged by a model-free oracle and replayed on Model/LeafRace (theorems C12_composite_race_*)"""
+        import os, re, subprocess
+        from .. import macrocheck as mc
+        ok, log = engine.build_harness(['leafrace'])
+        if not ok:
+            path = engine.write_replay(self.prop, 'build', log + '\n', ["harness/src/bin/leafrace.rs no longer builds against /repo"])
+            rep.violation(path, "leaf-race harness does not build against /repo", no_input=True)
+            return
+        fams = [('tup2', 2), ('tup2', 3), ('tup3', 2), ('vecres', 2), ('optres', 2), ('optres', 3)]
+        if tier == 'thorough':
+            fams += [('tup3', 3), ('vecres', 3), ('tup2', 4)]
+        expect = {'tup2': 'got:1.2.3', 'tup3': 'got:1.2.3.4', 'vecres': 'got:1.2.3', 'optres': 'got:1'}
+        text = ''.join(f"race lr_{k}_{t} kind={k} threads={t}\n" for k, t in fams)
+        exe = os.path.join(engine.HARNESS, 'target', 'debug', 'leafrace')
+        p = subprocess.run([exe], input=text, capture_output=True, text=True, timeout=3000,
+                           env=dict(os.environ, SCHED_CAP=str(4000 if tier == 'quick' else 100000)))
+        if p.returncode != 0:
+            path = engine.write_replay(self.prop, 'toolerror', text, [f"leafrace exited {p.returncode}: {p.stderr[-600:]}"])
+            rep.violation(path, f"leaf-race run crashed (exit {p.returncode})", no_input=True)
+            return
+        cur = None; rows = []
+        for l in p.stdout.split('\n'):
+            if l.startswith('scenario '):
+                cur = l.split()[1]
+            m = re.match(r'sched picks=(\S*) tags=(\S*) outs=(\S*) leaves=(\d+) dropped_before_teardown=(\d+) dropped_total=(\d+)$', l)
+            if m:
+                rows.append((cur,) + m.groups())
+        inp = ''.join(f"leafrace {i} leaves={r[4]} threads={r[0].split('_')[2]} picks={r[1]}\n" for i, r in enumerate(rows))
+        mo = mc.parse_items(subprocess.run([os.path.join(engine.LEAN, '.lake', 'build', 'bin', 'driver')], input=inp, capture_output=True, text=True).stdout)
+        spec_bad, tie_bad, switched = [], [], 0
+        for i, (name, picks, tags, outs, leaves, before, total) in enumerate(rows):
+            kind = name.split('_')[1]
+            o = outs.split('|')
+            got = [x for x in o if x.startswith('got:')]
+            why = None
+            if len(got) != 1:
+                why = f"{len(got)} callers received the single-use value (outcomes {outs})"
+            elif got[0] != expect[kind]:
+                why = f"the receiver observed {got[0]} instead of {expect[kind]}"
+            elif any(x != 'err:CannotReturnValueMoreThanOnce' for x in o if not x.startswith('got:')):
+                why = f"a losing request did not panic with CannotReturnValueMoreThanOnce: {outs}"
+            elif total != leaves:
+                why = f"{leaves} owned leaves constructed but {total} dropped overall"
+            pk = picks.split(',')
+            if any(pk[j] != pk[j + 1] for j in range(len(pk) - 1)):
+                switched += 1
+            if why:
+                spec_bad.append((name, picks, why, outs)); continue
+            m = (mo.get(str(i)) or ['?'])[0]
+            mm = re.match(r'tags=(\S*) outs=(\S*) stray=(\d+)$', m)
+            real_o = '|'.join('got' if x.startswith('got:') else 'err' for x in o)
+            if not mm or mm.group(1) != tags or mm.group(2) != real_o or mm.group(3) != '0':
+                tie_bad.append((name, picks, f"real tags={tags} outs={real_o}; model {m}"))
+        for (name, picks, why, outs) in spec_bad[:2]:
+            kind, t = name.split('_')[1], name.split('_')[2]
+            path = engine.write_replay(self.prop, 'spec', f"race {name} kind={kind} threads={t}\n# schedule picks={picks}\n", [
+                f"property {self.prop} violated by the real code under schedule picks={picks}: {why}",
+                "replay: SCHED_CAP=100000 /verif/harness/target/debug/leafrace < this file (the schedule is among the explored ones)"])
+            rep.violation(path, f"{name} schedule picks={picks}: {why}"[:400])
+        if not spec_bad and tie_bad:
+            (name, picks, d) = tie_bad[0]
+            path = engine.write_replay(self.prop, 'tie', f"race {name}\n# schedule picks={picks}\n# {d}\n", ["Model/LeafRace and the real leaf accesses disagree; every schedule still delivered the value to exactly one caller"])
+            rep.violation(path, f"leaf-race model/code correspondence broken on {name} picks={picks}: {d}"[:400], no_input=True)
+        rep.coverage['leaf_race'] = {'schedules': len(rows), 'with_context_switch': switched, 'families': [f"{k}x{t}" for k, t in fams]}
+        rep.coverage['evaluations'] = rep.coverage.get('evaluations', 0) + len(rows)
+        rep.coverage['distinct_nontrivial'] = rep.coverage.get('distinct_nontrivial', 0) + switched
 
     def judge(self, name, r, seqs):
         j = super().judge(name, r, seqs)
